@@ -54,7 +54,11 @@ impl Drop for Running {
   }
 }
 
-pub fn server_settings(node: &Node, datadir: &Path, flags: Flags, hidden: &[InscriptionId]) -> Settings {
+/// `integration_test` = ord's own switch for its integration tests (ORD_INTEGRATION_TEST): the server's tokio
+/// runtime gets one worker thread instead of one per core and the index-polling thread wakes every 100 ms
+/// instead of sleeping for the polling interval; router, handlers and layers are the same (only `/update`
+/// becomes available).
+pub fn server_settings(node: &Node, datadir: &Path, flags: Flags, hidden: &[InscriptionId], integration_test: bool) -> Settings {
   let mut args: Vec<String> = vec![
     "ord".into(),
     "--bitcoin-rpc-url".into(),
@@ -73,6 +77,9 @@ pub fn server_settings(node: &Node, datadir: &Path, flags: Flags, hidden: &[Insc
       "HIDDEN".to_string(),
       hidden.iter().map(|i| i.to_string()).collect::<Vec<_>>().join(" "),
     );
+  }
+  if integration_test {
+    envmap.insert("INTEGRATION_TEST".to_string(), "1".to_string());
   }
   Settings::merge(options, envmap).unwrap()
 }
@@ -225,14 +232,16 @@ impl Canon<'_> {
     if !s.starts_with("<!doctype html>\n<html lang=en") || !s.contains("<title>Inscription ") {
       return None;
     }
-    let cap = |re: &str| regex::Regex::new(re).unwrap().captures(s).map(|c| c[1].to_string());
+    let cap = |prefix: &str| {
+      s.find(prefix).map(|k| s[k + prefix.len()..].chars().take_while(|c| c.is_ascii_lowercase()).collect::<String>())
+    };
     let kind = if s.contains("<audio controls>") {
       "audio".to_string()
-    } else if let Some(l) = cap(r"data-language=([a-z]+)") {
+    } else if let Some(l) = cap("data-language=") {
       format!("code:{l}")
     } else if s.contains("font-family: 'Inscription'") {
       "font".into()
-    } else if let Some(r) = cap(r"image-rendering: ([a-z]+);") {
+    } else if let Some(r) = cap("image-rendering: ") {
       format!("image:{r}")
     } else if s.contains("preview-markdown.css") {
       "markdown".into()
@@ -440,7 +449,7 @@ fn realize(plan: &[InsSpec], sats: bool, scratch: &Path) -> World {
     }
     i = j;
   }
-  let flags = Flags { sats, addr: false, tx: false, ins: true, runes: false };
+  let flags = Flags { sats, addr: false, tx: true, ins: true, runes: false };
   let ix = env::open(&node, scratch, flags, &[], false);
   match env::update(&ix, Duration::from_secs(60)) {
     env::UpdateOutcome::Ok => {}
@@ -550,8 +559,13 @@ impl Exec<'_> {
         self.dist.hit("ins");
       }
       "cfg" => {
+        let t0 = std::time::Instant::now();
         self.ensure_world();
+        let t1 = std::time::Instant::now();
         self.server = None;
+        if std::env::var("VERIF_TIMING").is_ok() {
+          eprintln!("timing: ensure_world {:?}", t1 - t0);
+        }
         let w = self.world.as_ref().unwrap();
         let origin = match field(&ts, "origin").unwrap() {
           "none" => None,
@@ -566,8 +580,12 @@ impl Exec<'_> {
           "-" => vec![],
           l => l.split(',').map(|n| n.parse().unwrap()).collect(),
         };
-        let settings = server_settings(&w.node, w.ix.dir.path(), w.flags, &hidden);
+        let settings = server_settings(&w.node, w.ix.dir.path(), w.flags, &hidden, false);
+        let t2 = std::time::Instant::now();
         self.server = Some(start_server(settings, w.ix.index.clone(), origin.as_deref(), decompress));
+        if std::env::var("VERIF_TIMING").is_ok() {
+          eprintln!("timing: stop+settings {:?} start_server {:?}", t2 - t1, t2.elapsed());
+        }
         self.out.emit(l, "ok");
         self.dist.hit("cfg");
         self.dist.hit(if origin.is_some() { "cfg.origin" } else { "cfg.no_origin" });
@@ -867,6 +885,12 @@ fn gen_case(rng: &mut Rng, case: u64, big: bool) -> Vec<String> {
 }
 
 fn main() {
+  // tokio's documented knob for `Runtime::new()` (which `Server::run` uses): a few workers per server
+  // instead of one per core, so that 16 shards with several servers each do not oversubscribe the machine
+  if std::env::var_os("TOKIO_WORKER_THREADS").is_none() {
+    // SAFETY: no other thread exists yet
+    unsafe { std::env::set_var("TOKIO_WORKER_THREADS", "2") };
+  }
   let args = Args::parse();
   let mut out = Streams::create(&args.out);
   let mut dist = Dist::default();
